@@ -406,7 +406,14 @@ func c01Run(t *testing.T, s Scenario, src verifsim.DecisionSource, keep bool) *R
 	for _, rc := range recs {
 		got.Write(rc.Content)
 	}
-	if !permittedOutput(sc.Content, got.Bytes(), sc.Cfg.MLL) {
+	g := got.Bytes()
+	if n := len(sc.Content); n > 0 && sc.Content[n-1] != '\n' && len(g) > 0 && g[len(g)-1] == '\n' {
+		// non-plain mode is outside the statement of C01 (which is about --plain);
+		// there a labelled record is a whole output line (C07), so the record of an
+		// unterminated last line may end in a newline the file does not have
+		g = g[:len(g)-1]
+	}
+	if !permittedOutput(sc.Content, g, sc.Cfg.MLL) {
 		res.Class = "bytes-differ"
 		res.Message = diffMsg(expected, got.Bytes())
 	}
